@@ -92,3 +92,37 @@ def rule_macro_removal(run, prog):
                            f"(for preproc.macros: the header guard's own macro)", x)
     if n == 0:
         run.note("R-14.6: nothing deletes from the macro list by position in this tree")
+
+
+def rule_macro_lookup(run, prog):
+    run.rule("R-14.7", "lookup in preproc.macros is by equality of names: PreProcessors.has_macro_defined, interpreted on every "
+             "list of <= 2 macros over names that are substrings / prefixes / suffixes / case variants of one another and on "
+             "every such query, answers true exactly when a macro of that very name is in the list", floor=0)
+    pp = prog.classes.get("PreProcessors")
+    m = pp.methods.get("has_macro_defined") if pp is not None else None
+    if m is None:
+        run.note("R-14.7: PreProcessors.has_macro_defined does not exist in this tree (the lookup is spelled at its use: R-14.2)")
+        return
+    names = ["A_H", "XA_H", "A_HX", "a_h", "A", ""]
+    methods = {("PreProcessors", k): v.node for k, v in pp.methods.items()}
+    bad, n = None, 0
+    try:
+        for size in (0, 1, 2):
+            for defined in itertools.permutations(names[:5], size):
+                for query in names:
+                    n += 1
+                    me = Obj("PreProcessors", macros=[Obj("Macro", name=nm, is_func=False) for nm in defined])
+                    ev = Evaluator(methods)
+                    try:
+                        got = ev.invoke(m.node, [me, query], {})
+                    except Raised as r:
+                        got = f"raise {r}"
+                    want = query in defined
+                    if (isinstance(got, str) or bool(got) != want) and bad is None:
+                        bad = (list(defined), query, got, want)
+    except Unsupported as e:
+        raise Undecided(f"{m.key} is outside the evaluable subset: {e}")
+    run.ob("R-14.7", f"{m.key}::lookup-by-equality", bad is None,
+           (f"with the macros {bad[0]} defined, has_macro_defined({bad[1]!r}) answers {bad[2]!r} (expected {bad[3]}): a header whose "
+            f"guard is never #defined passes when another macro's name merely resembles the guard, or a defined guard is missed")
+           if bad else "", m.node, evaluations=n)
